@@ -267,11 +267,13 @@ func RunCase(c CaseJ, step, okTimeout, errGrace time.Duration) (o Obs) {
 	var herr error
 	for k := 2; k <= c.Ticks; k++ {
 		time.Sleep(step)
+		// (the tick counts as published from the moment its publication BEGINS: a waiter may see the new status and
+		//  return before apply comes back)
+		tick.Store(int32(k))
 		if err := apply(k); err != nil {
 			herr = err
 			break
 		}
-		tick.Store(int32(k))
 	}
 	var r res
 	select {
